@@ -53,16 +53,18 @@ RULE = ("cases = (a) the complete product token kind x copy method x topology (c
         "critical section")
 ASSUMPTIONS = ["threading.Lock of CPython is a correct mutex (it protects the monitor's own counters)",
                "thread schedules are those the OS/GIL produced with yields injected; not all interleavings are explored"]
-BUDGET = {"quick": 30, "thorough": 420}
+BUDGET = {"quick": 45, "thorough": 420}
 FLOORS = {
     "quick": {"evaluations": 1000, "distinct_nontrivial": 1000,
               "counters": {"copies_made": 2800, "held_pair_checks": 38000, "separate_lock_checks": 7000, "free_checks": 18000,
                            "copies_made_while_held": 120, "thread_cases": 150, "critical_sections": 150000,
                            "handovers": 20000, "max_occupancy_checks": 300},
               "sets": {"interleavings": 150}},
-    "thorough": {"evaluations": 1000, "distinct_nontrivial": 1000,
-                 "counters": {"copies_made": 2800, "held_pair_checks": 38000, "thread_cases": 150},
-                 "sets": {"interleavings": 150}},
+    "thorough": {"evaluations": 6000, "distinct_nontrivial": 6000,
+                 "counters": {"copies_made": 7000, "held_pair_checks": 100000, "separate_lock_checks": 18000, "free_checks": 47000,
+                              "copies_made_while_held": 3000, "thread_cases": 4000, "critical_sections": 4000000,
+                              "handovers": 500000, "max_occupancy_checks": 8000},
+                 "sets": {"interleavings": 4000}},
 }
 EXHAUSTIVE_SPACE = ("deterministic pairwise exclusion checks for every combination of 13 token kinds x 10 copy methods x "
                     "{chain, star} x 1..6 copies (all ordered member pairs, same thread and other thread); the thread "
